@@ -217,11 +217,12 @@ class FnV(object):
 
 
 class ClosureV(object):
-    __slots__ = ("defpath", "upvars")
+    __slots__ = ("defpath", "upvars", "key")
 
-    def __init__(self, defpath, upvars):
+    def __init__(self, defpath, upvars, key=None):
         self.defpath = defpath
         self.upvars = tuple(upvars)
+        self.key = key  # body of this instantiation (the enclosing function's generic arguments applied)
 
 
 class PrimV(object):
@@ -487,7 +488,7 @@ class Evaluator(object):
             if isinstance(v, ClosureV):
                 fs = list(v.upvars)
                 fs[step[1]] = self.write_path(fs[step[1]], path[1:], new)
-                return ClosureV(v.defpath, fs)
+                return ClosureV(v.defpath, fs, v.key)
             raise Unsupported("write field of %r" % (v,))
         if k == "i":
             if isinstance(v, ArrV):
@@ -611,7 +612,7 @@ class Evaluator(object):
             return T.const(int(c["int"]), w)
         if "zst" in c:
             if t["k"] == "closure":
-                return ClosureV(t["def"], ())
+                return ClosureV(t["def"], (), t.get("body"))
             if t["k"] == "fndef":
                 return FnV({"def": t["def"], "path": t["path"], "res": None})
             return UNIT
@@ -922,7 +923,7 @@ class Evaluator(object):
             if kk == "tuple":
                 return Struct(ops)
             if kk == "closure":
-                return ClosureV(kind["def"], ops)
+                return ClosureV(kind["def"], ops, self.tys[kind["ty"]].get("body") if "ty" in kind else None)
             if kk == "adt":
                 t = self.tys[kind["ty"]]
                 if t["adt_kind"] == "struct":
@@ -1400,15 +1401,13 @@ class Evaluator(object):
         if h is not None:
             if not (rc and rc in self.bodies):
                 return h(self, st, ctx)
-            # the primitive unrolls; when it cannot (an iterator whose length is not a constant) the library's own MIR is
-            # evaluated instead, its loop going through the loop summariser like any other
+            # the primitive unrolls; when it cannot (an iterator whose length is not a constant, a receiver it does not model) the
+            # library's own MIR is evaluated instead, its loop going through the loop summariser like any other
             snap = st.fork()
             ncalls, nasserts = len(self.calls), len(self.asserts)
             try:
                 return h(self, st, ctx)
             except Unsupported as e:
-                if "symbolic" not in str(e) and "iterat" not in str(e):
-                    raise
                 st.objs, st.world, st.assume = snap.objs, snap.world, snap.assume
                 del self.calls[ncalls:]
                 del self.asserts[nasserts:]
@@ -1490,7 +1489,7 @@ class Evaluator(object):
                     p[v] = a.payloads.get(v, b.payloads.get(v))
             return EnumV(d.aux if d.op == "const" else d, p)
         if isinstance(a, ClosureV) and isinstance(b, ClosureV) and a.defpath == b.defpath:
-            return ClosureV(a.defpath, [self.merge_values(c, x, y) for x, y in zip(a.upvars, b.upvars)])
+            return ClosureV(a.defpath, [self.merge_values(c, x, y) for x, y in zip(a.upvars, b.upvars)], a.key)
         if isinstance(a, PrimV) and isinstance(b, PrimV) and a.kind == b.kind:
             if a.data == b.data:
                 return a
